@@ -1,7 +1,68 @@
-(* C15 -- theorems are added in Proofs/SprtProofs.v; this file is extended below *)
-From PV Require Import Lib.Base Model.Sprt.
+(* C15 -- sprt applies Wald's rule to every prefix of the sample; error bounds hold.
+   Statements only; proofs in Proofs/SprtProofs.v. *)
+From PV Require Import Lib.Base Model.Sprt Proofs.SprtProofs.
 Open Scope Q_scope.
+
+(* random_order=True: the loop of the model is the prefix recursion loop2 started with no observation examined *)
+Theorem C15_loop_is_prefix_recursion : forall lr A B xs,
+  sprt_loop lr A B xs 0 (length xs) 1 = loop2 lr A B [] xs 1.
+Proof. intros lr A B xs. exact (sprt_loop_loop2 lr A B xs [] 1). Qed.
+Print Assumptions C15_loop_is_prefix_recursion.
+
+(* ... which examines x[:1], x[:2], ... in turn (log), reports the ratio of the last prefix examined (t), found
+   every earlier prefix strictly inside (A, B), and stopped because that last ratio left the open interval or
+   the whole sample was used; with no observation at all it reports the initial value 1 *)
+Theorem C15_examines_prefixes_in_turn_and_stops_at_first_exit : forall lr A B w ts t log,
+  loop2 lr A B [] w ts = (t, log) ->
+  log = map (fun k => firstn k w) (seq 1 (length log)) /\
+  (length log <= length w)%nat /\
+  t = match length log with O => ts | S _ => lr (firstn (length log) w) end /\
+  (forall j, (1 <= j < length log)%nat -> inside A B (lr (firstn j w)) = true) /\
+  ((length log = length w) \/ inside A B t = false).
+Proof.
+  intros lr A B w ts t log H. destruct (loop2_spec lr A B w [] ts t log H) as [H1 [H2 [H3 [H4 [_ H6]]]]].
+  repeat split; assumption.
+Qed.
+Print Assumptions C15_examines_prefixes_in_turn_and_stops_at_first_exit.
+
+(* decision: 'reject H0' iff ratio >= B, 'reject Ha' iff ratio <= A (and not >= B); otherwise no decision *)
+Theorem C15_decision_rule : forall A B ts,
+  fst (conclude A B ts) = Qle_bool B ts /\ snd (conclude A B ts) = negb (Qle_bool B ts) && Qle_bool ts A.
+Proof. exact conclude_spec. Qed.
+Print Assumptions C15_decision_rule.
+
+(* random_order=False: the whole sample is judged once by the same thresholds *)
 Theorem C15_fixed_order_judges_whole_sample_once : forall lr al be xs,
   sprt lr al be xs false = (conclude (be / (1 - al)) ((1 - be) / al) (lr xs), lr xs, [xs]).
 Proof. intros. reflexivity. Qed.
 Print Assumptions C15_fixed_order_judges_whole_sample_once.
+
+(* bernoulli_lh_ratio is the product over observations of (pa/po)^x ((1-pa)/(1-po))^(1-x) *)
+Theorem C15_bernoulli_lr_is_product : forall po pa w, 0 < po < 1 -> 0 < pa < 1 ->
+  bernoulli_lh_ratio po pa (bits w) == prodP pa w / prodP po w.
+Proof. exact bernoulli_lr_is_product. Qed.
+Print Assumptions C15_bernoulli_lr_is_product.
+
+(* Wald's bounds for every sample size n, all po, pa, alpha, beta in range: summing the H0-probability
+   prodP po w of every 0/1 sequence w of length n on which the model function sprt rejects H0 gives at most
+   alpha/(1-beta); likewise beta/(1-alpha) for rejecting Ha under Ha *)
+Theorem C15_wald_type1 : forall po pa alpha beta n,
+  0 < po < 1 -> 0 < pa < 1 -> 0 < alpha -> 0 < beta -> alpha + beta < 1 ->
+  qsum (map (fun w => prodP po w *
+                      ind (fst (fst (fst (sprt (bernoulli_lh_ratio po pa) alpha beta (bits w) true))))) (seqs n))
+  <= alpha / (1 - beta).
+Proof. exact wald_type1. Qed.
+Print Assumptions C15_wald_type1.
+
+Theorem C15_wald_type2 : forall po pa alpha beta n,
+  0 < po < 1 -> 0 < pa < 1 -> 0 < alpha -> 0 < beta -> alpha + beta < 1 ->
+  qsum (map (fun w => prodP pa w *
+                      ind (snd (fst (fst (sprt (bernoulli_lh_ratio po pa) alpha beta (bits w) true))))) (seqs n))
+  <= beta / (1 - alpha).
+Proof. exact wald_type2. Qed.
+Print Assumptions C15_wald_type2.
+
+Example C15_nonvacuous :
+  sprt (bernoulli_lh_ratio (1 # 2) (1 # 10)) (1 # 20) (1 # 20) [1; 1]%Z true
+  = ((false, true), (1 # 10) * (1 # 10) * 1 / ((1 # 2) * (1 # 2) * 1), [[1%Z]; [1%Z; 1%Z]]).
+Proof. vm_compute. reflexivity. Qed.
